@@ -248,20 +248,25 @@ def make_build(unit, N, count, h):
 
 def instances(tier):
     # N = 16 does not finish in 15 min (get and append); thorough adds more sizes up to 10 instead
-    return [1, 2, 3, 8] if tier == 'quick' else [1, 2, 3, 4, 5, 6, 8, 10]
+    return [1, 2, 3, 8] if tier == "quick" else [1, 2, 3, 4, 5, 6, 8, 10] + ([16] if os.environ.get("CV_C19_16") else [])
+
+
+def count_max(tier):
+    return int(os.environ.get('CV_C19_COUNT_MAX', 8 if tier == 'quick' else 10))
 
 
 def jobs(unit, tier, only=None):
     out = []
     for N in sorted(set(instances(tier)) | {4}):
         for count in (0, 1):
-            # the counting policy adds 64-bit accumulations per loop iteration: decided up to N = 4
-            # (N = 8 does not finish in 15 min on any back end); the empty policy covers the larger sizes
-            if (count and N > 4) or (not count and N not in instances(tier)):
+            # the counting policy adds 64-bit accumulations per loop iteration: MiniSat needs 4-5 min for get() at N = 8, the installed
+            # kissat (same CNF, --external-sat-solver) 1 min; the counting instances above N = 4 and everything at N >= 10 go to kissat
+            if (count and N > count_max(tier)) or (not count and N not in instances(tier)):
                 continue
             for h, fn in HARNESSES:
+                heavy = h in ('h_rb_get', 'h_wb_append') and ((count and N > 4) or N >= 10)
                 out.append(Job('c19_N%d_%s_%s' % (N, 'count' if count else 'empty', h[2:]), fn, 'INV + postconditions (harness)',
-                               make_build(unit, N, count, h), backend='sat', unwind=(2 * N + 4) if h.startswith('h_rb') else (4 * N + 6), timeout=900 if tier == 'quick' else 2400, mode='harness',
+                               make_build(unit, N, count, h), backend='kissat' if heavy else 'sat', unwind=(2 * N + 4) if h.startswith('h_rb') else (4 * N + 6), timeout=900 if tier == 'quick' else 2400, mode='harness',
                                instance={'N': N, 'policy': 'count' if count else 'empty'},
                                extra_flags=['--drop-unused-functions']))
     if only:
@@ -283,8 +288,8 @@ def evidence_info(unit, tier):
         'trusted_base': ['CBMC 6.11 C++ front end on the shadow headers (textual instantiation T-INST of the two class templates, rules listed under extraction)',
                          'stand-in <memory> (unique_ptr<unsigned char[]>), <cstring>, <stdexcept>, <cassert>',
                          'contract of the environment: readData delivers 1..len bytes (a source delivering 0 forever is excluded; termination not claimed); writeData consumes all bytes',
-                         'CBMC built-in memcpy/memmove models; MiniSat'],
-        'assumptions': ['per-instance proof: N in %s, not for all N' % instances(tier), 'request lengths 0 .. 2N+1, null data pointer included',
+                         'CBMC built-in memcpy/memmove models; MiniSat, and kissat (--external-sat-solver, same CNF) for the groups listed with backend kissat'],
+        'assumptions': ['per-instance proof: N in %s (counting policy: N <= %d), not for all N' % (instances(tier), count_max(tier)), 'request lengths 0 .. 2N+1, null data pointer included',
                         'ghost bounds: consumed <= N, sink length before the call <= N+1 (the code never reads them)',
                         'member template parameter T bound to unsigned char (T only types the pointer passed to memcpy)',
                         'harness-mode __CPROVER_assume statements are exactly the representation invariant and the environment contract'],
